@@ -1,6 +1,6 @@
 """C16 - Reconnecting client: one live connection, reconnect on loss, Close is final."""
 MANIFEST = dict(
-    text="TLC exhausts Sys_Reconnect (clientDo in its three steps under/outside the mutex, reconnect(), Close, with connection kills, failing configuration and unreachable server at any point, 2-3 concurrent callers) against the Prop_C16 monitor (at most one open factory socket at quiescence, superseded sockets closed, reconnect through a freshly evaluated configuration with count+1 after a loss report, no reconnect after a recoverable stream-limit error, Close final) and rejects four mutants - one of them the tree as found (dropped client never closed); TLC-generated and seeded histories run against client.NewReconnectableClient and a real server in a bubble with a counting connection factory; TLC validates every recorded execution.",
+    text="TLC exhausts Sys_Reconnect (clientDo in its three steps under/outside the mutex, reconnect(), Close, with connection kills, failing configuration and unreachable server at any point, 2-3 concurrent callers) against the Prop_C16 monitor (at most one open factory socket at quiescence, superseded sockets closed, reconnect through a freshly evaluated configuration with count+1 after a loss report, no reconnect after a recoverable stream-limit error, Close final) and rejects six mutants - one of them the tree as found (dropped client never closed), another a loss handler that forgets whatever client is current instead of its own; TLC-generated and seeded histories (including requests in flight at the moment of the loss, every caller retrying at once) run against client.NewReconnectableClient and a real server in a bubble with a counting connection factory; TLC validates every recorded execution.",
     note="Trusted: TLC, synctest, the counting factory. A loss report counts for the reconnect clause only when no kill happened while that call ran (otherwise the monitor cannot tell which generation it is about).",
     tech="TLA+ model checking (TLC) + TLC-generated scenario replay + TLC trace validation of real-code traces", ref="5/C16")
 
@@ -18,7 +18,7 @@ def run(ctx):
     ctx.tlc_mc("Sys_Reconnect", "MC_Reconnect_big.cfg" if T else "MC_Reconnect.cfg", timeout=1500)
     if T:
         ctx.tlc_mc("Sys_Reconnect", "MC_Reconnect_big2.cfg", timeout=1500)     # 3 callers, 4 generations, 6 calls (7.3 M states)
-    for m in ("CloseDropped", "CheckClosedFlag", "LimitIsRecoverable", "ReconnectWhenNil", "ClosedCheckLocked"):
+    for m in ("CloseDropped", "CheckClosedFlag", "LimitIsRecoverable", "ReconnectWhenNil", "ClosedCheckLocked", "DropOnlyOwn"):
         ctx.tlc_mc("Sys_Reconnect", "MC_Reconnect_mut%s.cfg" % m, expect_violation=True)
     scns = ctx.tlc_gen("Sys_Reconnect", "Gen_Reconnect.cfg", num=300 if T else 40, depth=80)
     import random
